@@ -335,6 +335,8 @@ class Mini:
                 raise _Break()
             elif isinstance(st, ast.Pass):
                 pass
+            elif isinstance(st, ast.Try):
+                self._try(st, env)
             elif isinstance(st, (ast.Import, ast.ImportFrom)):
                 import math as _math
                 if isinstance(st, ast.Import) and all(a.name == "math" for a in st.names):
@@ -360,6 +362,40 @@ class Mini:
                 raise Raised(ast.unparse(st)[:80])
             else:
                 raise NoEval(type(st).__name__)
+
+    def _try(self, st, env):
+        import re as _re
+        try:
+            try:
+                self.run(st.body, env)
+            except (_Return, _Break, _Continue, NoEval):
+                raise
+            except Raised as ex:
+                m_ = _re.match(r"raise\s+([A-Za-z_][A-Za-z_0-9]*)", ex.text)
+                self._handle(st, env, m_.group(1) if m_ else "Exception", ex)
+            except Exception as ex:  # an operation of the evaluated source failed
+                self._handle(st, env, type(ex).__name__, ex)
+            else:
+                self.run(st.orelse, env)
+        finally:
+            if st.finalbody:
+                self.run(st.finalbody, env)
+
+    _BASES = {"KeyError": ("LookupError",), "IndexError": ("LookupError",), "ZeroDivisionError": ("ArithmeticError",),
+              "OverflowError": ("ArithmeticError",), "UnicodeError": ("ValueError",)}
+
+    def _handle(self, st, env, exname, ex):
+        for h in st.handlers:
+            names = None
+            if h.type is not None:
+                names = [x.id for x in (h.type.elts if isinstance(h.type, ast.Tuple) else [h.type]) if isinstance(x, ast.Name)]
+            if names is None or exname in names or "Exception" in names or "BaseException" in names or \
+                    any(b in names for b in self._BASES.get(exname, ())):
+                if h.name:
+                    env[h.name] = ex
+                self.run(h.body, env)
+                return
+        raise ex
 
     def call(self, fdef, args, kwargs=None):
         a = fdef.args
